@@ -213,7 +213,46 @@ def _term_equal(s, t):
         r = _reindexed_equal(s, t, col, sgn, lhs, rhs0)
         if r is not None:
             return r
+    if SHIFTS:
+        r = _shifted_equal(s, t, lhs, rhs0)
+        if r is not None:
+            return r
     return last
+
+
+SHIFTS = []        # list of (extent term N, shift term tau) with 0 <= tau < N: candidates for re-indexing by a cyclic shift
+
+
+def _shifted_equal(s, t, lhs, rhs0):
+    """sum over s.vars of lhs == sum over t.vars of rhs0 via y_j = (x_j -+ tau) mod N on the axes whose extent is listed in
+    SHIFTS (identity on the others): x -> (x - tau) mod N is a bijection of range(N) for 0 <= tau < N (Equiv.sum_comp)."""
+    from .arr import t_eq
+    n = len(s.vars)
+    if n != len(t.vars) or not all(valid(e1 == e2) for e1, e2 in zip(s.exts, t.exts)):
+        return None
+    taus = []
+    for e in s.exts:
+        tau = None
+        for (N, tt) in SHIFTS:
+            if valid(e == zi(N)) and valid(z3.And(zi(tt) >= 0, zi(tt) < zi(N))):
+                tau = zi(tt)
+                break
+        taus.append(tau)
+    if all(tt is None for tt in taus):
+        return None
+    for direction in (1, -1):
+        sub = []
+        for x, y, e, tt in zip(s.vars, t.vars, s.exts, taus):
+            if tt is None:
+                sub.append((y, x))
+            else:
+                q = x - direction * tt
+                sub.append((y, z3.If(q < 0, q + e, z3.If(q >= e, q - e, q))))
+        rhs = z3.substitute(rhs0, *sub) if z3.is_expr(rhs0) else rhs0
+        st, m = sym.prove_goal(t_eq(lhs, rhs), extra=list(s.hyps))
+        if st == "proved":
+            return "proved", "re-indexed by a cyclic shift", None
+    return None
 
 
 REINDEX = []       # list of (col, sgn): x'_j = x_i if sgn[i] == 1 else ext_j - 1 - x_i, for the i with col[i] == j
